@@ -8,6 +8,7 @@ cd /verif
 for d in seeded/C*-m*; do
   prop=$(basename $d | cut -d- -f1)
   [ "$(basename $d)" = "C15-m8" ] && prop=C13   # breaks C13's ground, see its meta.json
+  case "$(basename $d)" in C11-m9|C11-m10) prop=C06;; esac   # defects of lazy execution, see meta.json
   if grep -q '"obsolete"' $d/meta.json; then echo "$(basename $d) obsolete (see meta.json)" >> seeded/REPORT.txt; continue; fi
   if ! git -C /repo apply --check $PWD/$d/patch.diff 2>/dev/null; then
     echo "$(basename $d) patch-no-longer-applies" >> seeded/REPORT.txt; continue
